@@ -99,10 +99,15 @@ CH = "self._data_channels[stream_id]"
 contract(f"{M}:RTCSctpTransport._data_channel_receive", params={"stream_id": "int", "pp_id": "int", "data": "bytes"},
          # decided per DCEP message type: MSG=3 a well-formed DATA_CHANNEL_OPEN on a fresh stream, MSG=2 a DATA_CHANNEL_ACK
          # for a registered channel
-         instances=[{"MSG": 3}, {"MSG": 2}],
+         # MSG=51/53/56/57: a user message (payload protocol identifier) for a registered channel
+         instances=[{"MSG": 3}, {"MSG": 2}, {"MSG": 51}, {"MSG": 53}, {"MSG": 56}, {"MSG": 57}],
          requires=["@MSG=3: " + OPEN_OK, "0 <= stream_id < 65536", TABLE_NN, TABLE_ID, QUEUE_OK,
                    f"implies({EST_}, self._data_channel_id is not None and 0 <= self._data_channel_id <= 1)",
-                   "@MSG=2: pp_id == 50 and len(data) >= 1 and data[0] == 2 and stream_id in self._data_channels"],
+                   "@MSG=2: pp_id == 50 and len(data) >= 1 and data[0] == 2 and stream_id in self._data_channels",
+                   "@MSG=51: pp_id == 51 and stream_id in self._data_channels and valid_utf8(data)",
+                   "@MSG=53: pp_id == 53 and stream_id in self._data_channels",
+                   "@MSG=56: pp_id == 56 and stream_id in self._data_channels",
+                   "@MSG=57: pp_id == 57 and stream_id in self._data_channels"],
          raises={},
          ensures=[
              f"@MSG=3: stream_id in self._data_channels and fresh({CH})",
@@ -124,11 +129,54 @@ contract(f"{M}:RTCSctpTransport._data_channel_receive", params={"stream_id": "in
              f"len({CH}.emitted) == old(len({CH}.emitted)))",
              "@MSG=2: all_in(self._data_channels, lambda k: k in old(self._data_channels) and "
              "same(self._data_channels[k], old(self._data_channels[k])))",
+             # user messages: exactly one 'message' event on the channel the message was sent on, carrying the value and the
+             # type the sender's payload protocol identifier says: text (the UTF-8 decoding of the payload; the empty
+             # string for 56) or binary (the payload; empty bytes for 57)
+             f"@MSG=51: len({CH}.emitted) == old(len({CH}.emitted)) + 1 and {CH}.emitted[len({CH}.emitted) - 1] == 'message' and "
+             f"len({CH}.message_data) == old(len({CH}.message_data)) + 1 and "
+             f"{CH}.message_data[len({CH}.message_data) - 1] == data and "
+             f"{CH}.message_is_text[len({CH}.message_is_text) - 1] == True and {CH}.__readyState == old({CH}.__readyState)",
+             f"@MSG=53: len({CH}.emitted) == old(len({CH}.emitted)) + 1 and {CH}.emitted[len({CH}.emitted) - 1] == 'message' and "
+             f"len({CH}.message_data) == old(len({CH}.message_data)) + 1 and "
+             f"{CH}.message_data[len({CH}.message_data) - 1] == data and "
+             f"{CH}.message_is_text[len({CH}.message_is_text) - 1] == False and {CH}.__readyState == old({CH}.__readyState)",
+             f"@MSG=56: len({CH}.emitted) == old(len({CH}.emitted)) + 1 and {CH}.emitted[len({CH}.emitted) - 1] == 'message' and "
+             f"len({CH}.message_data) == old(len({CH}.message_data)) + 1 and "
+             f"{CH}.message_data[len({CH}.message_data) - 1] == b'' and "
+             f"{CH}.message_is_text[len({CH}.message_is_text) - 1] == True and {CH}.__readyState == old({CH}.__readyState)",
+             f"@MSG=57: len({CH}.emitted) == old(len({CH}.emitted)) + 1 and {CH}.emitted[len({CH}.emitted) - 1] == 'message' and "
+             f"len({CH}.message_data) == old(len({CH}.message_data)) + 1 and "
+             f"{CH}.message_data[len({CH}.message_data) - 1] == b'' and "
+             f"{CH}.message_is_text[len({CH}.message_is_text) - 1] == False and {CH}.__readyState == old({CH}.__readyState)",
          ],
          modifies=["content(self._data_channels)", "content(self._data_channel_queue)", "content(self._outbound_queue)",
                    "*RTCDataChannel._RTCDataChannel__id", "*RTCDataChannel._RTCDataChannel__bufferedAmount",
-                   "*RTCDataChannel._RTCDataChannel__readyState", "*list<Seq_Str>"],
+                   "*RTCDataChannel._RTCDataChannel__readyState", "*list<Seq_Str>",
+                   "content(self._data_channels[stream_id].message_data)", "content(self._data_channels[stream_id].message_is_text)"],
          witness=[{"$instance": {"MSG": 3}, "stream_id": 1, "pp_id": 50, "data": bytes.fromhex("03 81 0000 00000005 0002 0001") + "\u00e9".encode() + b"p"},
                   {"$instance": {"MSG": 3}, "stream_id": 65535, "pp_id": 50, "data": bytes.fromhex("03 02 0100 ffffffff 0000 0000")},
                   {"$instance": {"MSG": 3}, "stream_id": 0, "pp_id": 50, "data": bytes.fromhex("03 83 0000 00000007 0003 0000") + "\u65e5".encode() + b"xx"}],
-         tags=["C13"])
+         tags=["C13", "C01"])
+
+# ---------------------------------------------------------------------------- send(): what is queued for a user message
+QL = f"{Q}[len({Q}) - 1]"
+contract(f"{M}:RTCSctpTransport._data_channel_send", params={"channel": "RTCDataChannel", "data": "$T"},
+         instances=[{"T": "str"}, {"T": "bytes"}],
+         raises={},
+         ensures=[
+             # exactly one message is queued for this channel
+             f"len({Q}) == old(len({Q})) + 1 and same({QL}[0], channel)",
+             "forall(lambda i: same(self._data_channel_queue[i][0], old(self._data_channel_queue[i][0])) and "
+             "self._data_channel_queue[i][1] == old(self._data_channel_queue[i][1]) and "
+             "self._data_channel_queue[i][2] == old(self._data_channel_queue[i][2]), 0, old(len(self._data_channel_queue)))",
+             # value and type travel as payload protocol identifier + bytes (RFC 8831 section 8): text as UTF-8 under 51,
+             # binary as is under 53, the empty string / empty bytes as one zero byte under 56 / 57
+             f"@T=str: implies(len(data) > 0, {QL}[1] == 51 and {QL}[2] == utf8(data))",
+             f"@T=str: implies(len(data) == 0, {QL}[1] == 56 and len({QL}[2]) == 1 and {QL}[2][0] == 0)",
+             f"@T=bytes: implies(len(data) > 0, {QL}[1] == 53 and {QL}[2] == data)",
+             f"@T=bytes: implies(len(data) == 0, {QL}[1] == 57 and len({QL}[2]) == 1 and {QL}[2][0] == 0)",
+             # bufferedAmount grows by exactly the number of bytes queued (flush takes the same number off again)
+             f"channel.__bufferedAmount == old(channel.__bufferedAmount) + len({QL}[2])",
+         ],
+         modifies=["content(self._data_channel_queue)", "channel.__bufferedAmount", "content(channel.emitted)"],
+         tags=["C13", "C01"])
